@@ -19,6 +19,9 @@ package main
 //   race   1 = a second goroutine keeps re-registering the same handlers while the history is sent (child process);
 //          2 = the same in a race-instrumented child (built on demand; `skip:norace` if that is not possible)
 //   seg    0 = one write per message, 1 = one byte per write, r<seed> = random cuts
+//   pa     1 = the scripted panel answers every heartbeat ping of the client (one per second, rawpanel.go listen) with an
+//          acknowledge, as a real panel does; 0 (default) = it never does, so that a pause `w<ms>` of the script is a real
+//          silence on the socket (quiet periods longer than the reader's 2 s payload deadline: class (12) of the generator)
 //   hist   items separated by `;` (sent after the handlers are bound):
 //          eb<id>.<pressed>.<edge> | ep<id>.<v> | ea<id>.<v> | es<id>.<v> | en<id> (event without component)
 //          ex<id>.<pressed>.<edge>.<v> (binary + pulsed in one event) | g (ping) | i<model>.<serial>.<name> (hex, - empty)
@@ -28,7 +31,9 @@ package main
 //          K<kind><id> (the user registers a handler at this point: the script calls Bind* and goes on when it has returned;
 //          kind as in `bind`; put a pause before it so that what was sent earlier has been dispatched)
 //
-// Output: init=ok|err  inv=<tok,tok…>  acks=<n>  pings=<n>  fb=<n>  model= serial= name=  tj= sv= tn= tg= tf= av=  isinit= tconn= tlast= closed=
+// Output: init=ok|err  inv=<tok,tok…>  acks=<n>  pings=<n>  fb=<n>  model= serial= name=  tj= sv= tn= tg= tf= av=  isinit= tconn= tlast= closed= cut=
+//   closed = 1: the panel saw the client end the connection while the script was still running
+//   cut = why the harness stopped listening (see the stopping rule in gwRun): count | closed | quiet | deadline
 //   init = whether Connect returned an error; isinit = what IsInitialized() says afterwards
 //   tg = digest of json.Marshal(GetTopology()), tf = digest of json.Marshal of a FRESH unmarshal of the stored topology JSON (tj)
 //   invocation tokens: t<id>.<component summary> b<id>.<status>.<edge> p<id>.<v> a<id>.<v> i<id>.<v>
@@ -407,6 +412,7 @@ func gwRun(a map[string]string) string {
 	fbBig := nlInt(a, "fb", 0) == 2
 	fbn, fbsz := nlInt(a, "fbn", 40), nlInt(a, "fbsz", 1<<20)
 	race := nlInt(a, "race", 0) > 0
+	panelAcks := nlInt(a, "pa", 0) == 1
 	seg := a["seg"]
 	items := gwParseHist(a["hist"])
 	if !bin {
@@ -476,6 +482,12 @@ func gwRun(a map[string]string) string {
 		if tc, ok := c.(*net.TCPConn); ok && fbBig {
 			tc.SetReadBuffer(256 * 1024) // keep the kernel from absorbing the whole backlog
 		}
+		var wmu sync.Mutex // the script and (pa=1) the reader's heartbeat answers write to the same socket: one message at a time
+		cwrite := func(b []byte) {
+			wmu.Lock()
+			c.Write(b)
+			wmu.Unlock()
+		}
 		gotPing := make(chan struct{})
 		gotLF := make(chan struct{})
 		gotReq := make(chan struct{})
@@ -531,6 +543,9 @@ func gwRun(a map[string]string) string {
 									atomic.StoreInt64(&lastRx, time.Now().UnixNano())
 								case m.FlowMessage == rwp.InboundMessage_PING:
 									atomic.AddInt32(&pings, 1)
+									if panelAcks {
+										cwrite(nlBinFrame(&rwp.OutboundMessage{FlowMessage: rwp.OutboundMessage_ACK}))
+									}
 								case len(m.States) > 0:
 									atomic.AddInt32(&fbk, 1)
 									atomic.StoreInt64(&lastRx, time.Now().UnixNano())
@@ -548,6 +563,9 @@ func gwRun(a map[string]string) string {
 									atomic.StoreInt64(&lastRx, time.Now().UnixNano())
 								case l == "ping":
 									atomic.AddInt32(&pings, 1)
+									if panelAcks {
+										cwrite([]byte("ack\n"))
+									}
 								case strings.HasPrefix(l, "HWC#"):
 									atomic.StoreInt64(&lastRx, time.Now().UnixNano())
 									atomic.AddInt32(&fbk, 1) // mode line of the feedback (the colour line is HWCc#)
@@ -583,7 +601,7 @@ func gwRun(a map[string]string) string {
 			return
 		}
 		if bin {
-			c.Write([]byte{2, 0, 0, 0, 8, 2})
+			cwrite([]byte{2, 0, 0, 0, 8, 2})
 		} else if !wait(gotLF) {
 			close(histDone)
 			return
@@ -593,6 +611,8 @@ func gwRun(a map[string]string) string {
 			return
 		}
 		send := func(b []byte) {
+			wmu.Lock()
+			defer wmu.Unlock()
 			switch {
 			case seg == "1":
 				for i := range b {
@@ -636,7 +656,7 @@ func gwRun(a map[string]string) string {
 			b = append(b, gwWire(bin, &rwp.OutboundMessage{PanelInfo: info})...)
 			b = append(b, gwWire(bin, &rwp.OutboundMessage{HWCavailability: map[uint32]uint32{1: 1}})...)
 			b = append(b, gwWire(bin, &rwp.OutboundMessage{PanelTopology: topo})...)
-			c.Write(b)
+			cwrite(b)
 			close(histDone)
 			return
 		case "close0", "close2", "overlimit", "stall":
@@ -656,14 +676,13 @@ func gwRun(a map[string]string) string {
 				hold(100 * time.Millisecond)
 			case "overlimit":
 				hold(100 * time.Millisecond)
-				c.Write([]byte{0x20, 0xa1, 0x07, 0x00}) // 500000
+				cwrite([]byte{0x20, 0xa1, 0x07, 0x00}) // 500000
 				hold(4 * time.Second)
 			case "stall":
 				if bin {
-					c.Write([]byte{40, 0, 0, 0})
-					c.Write(make([]byte, 37))
+					cwrite(append([]byte{40, 0, 0, 0}, make([]byte, 37)...))
 				} else {
-					c.Write([]byte("_isSleeping=")) // a line that never gets its line feed
+					cwrite([]byte("_isSleeping=")) // a line that never gets its line feed
 				}
 				hold(4 * time.Second)
 			}
@@ -695,7 +714,7 @@ func gwRun(a map[string]string) string {
 					for _, m := range it.msgs {
 						b = append(b, gwWire(bin, m)...)
 					}
-					c.Write(b)
+					cwrite(b)
 				} else {
 					for _, m := range it.msgs {
 						send(gwWire(bin, m))
@@ -703,13 +722,14 @@ func gwRun(a map[string]string) string {
 				}
 			case "over":
 				n := uint32(it.n)
-				c.Write([]byte{byte(n), byte(n >> 8), byte(n >> 16), byte(n >> 24)})
+				cwrite([]byte{byte(n), byte(n >> 8), byte(n >> 16), byte(n >> 24)})
 			case "trunc":
 				n := uint32(it.n)
-				c.Write([]byte{byte(n), byte(n >> 8), byte(n >> 16), byte(n >> 24)})
+				tb := []byte{byte(n), byte(n >> 8), byte(n >> 16), byte(n >> 24)}
 				if it.n > 3 {
-					c.Write(make([]byte, it.n-3))
+					tb = append(tb, make([]byte, it.n-3)...)
 				}
+				cwrite(tb)
 				select {
 				case <-time.After(2500 * time.Millisecond):
 				case <-stop:
@@ -850,16 +870,26 @@ func gwRun(a map[string]string) string {
 	case <-histDone:
 	case <-time.After(30 * time.Second):
 	}
-	// quiet = nothing invoked, and no ack / feedback frame seen by the panel, for a while AFTER the last byte of the
-	// history went out (events sent right at the end of a long script must get their chance to be dispatched)
-	quietNeeded := 700 * time.Millisecond
-	deadline := time.Now().Add(6 * time.Second)
+	// STOPPING RULE (how long the harness keeps listening; the verdict is the Spec's, on whatever has been seen by then).
+	// `quiet` = time since the last invocation / the last ack or feedback frame the panel parsed / the last byte of the
+	// history.  The harness stops when
+	//   count:    the log holds as many invocations, and the panel as many acknowledges, as a run that loses nothing
+	//             produces (gwExpected: an upper bound used ONLY here), and 700 ms of quiet have shown that nothing extra follows;
+	//   closed:   the client has ended the connection (nothing more can be dispatched) and 700 ms of quiet;
+	//   quiet:    nothing at all has happened for 3 s although the counts are short — a stall, not scheduling noise;
+	//   deadline: 12 s (30 s with bulk feedback) after the end of the history.
+	// So a correct library that is merely slow (CPU load) is waited for; 700 ms only bounds how long EXTRA effects are looked for.
+	expInv, expAcks := gwExpected(items, a["bind"])
+	tailQuiet, stallQuiet := 700*time.Millisecond, 3*time.Second
+	deadline := time.Now().Add(12 * time.Second)
 	if fbBig {
-		deadline = time.Now().Add(15 * time.Second)
+		deadline = time.Now().Add(30 * time.Second)
 	}
+	cut := "deadline"
 	for time.Now().Before(deadline) {
 		mu.Lock()
 		ref := lastInv
+		ninv := len(inv)
 		mu.Unlock()
 		for _, ns := range []int64{atomic.LoadInt64(&histDoneAt), atomic.LoadInt64(&lastRx)} {
 			if ns != 0 && time.Unix(0, ns).After(ref) {
@@ -867,7 +897,17 @@ func gwRun(a map[string]string) string {
 			}
 		}
 		q := time.Since(ref)
-		if q >= quietNeeded {
+		complete := ninv >= expInv && int(atomic.LoadInt32(&acks)) >= expAcks
+		if complete && q >= tailQuiet {
+			cut = "count"
+			break
+		}
+		if atomic.LoadInt32(&sawClose) == 1 && q >= tailQuiet {
+			cut = "closed"
+			break
+		}
+		if q >= stallQuiet {
+			cut = "quiet"
 			break
 		}
 		time.Sleep(50 * time.Millisecond)
@@ -901,7 +941,7 @@ func gwRun(a map[string]string) string {
 		" tj=" + hx([]byte(tj)) + " sv=" + hx([]byte(sv)) + " tn=" + strconv.Itoa(tn) + " tg=" + tg + " tf=" + tf + " av=" + av +
 		" isinit=" + b01(rp.IsInitialized()) +
 		" closed=" + strconv.Itoa(int(atomic.LoadInt32(&sawClose))) +
-		" tconn=" + strconv.FormatInt(tconn, 10) + " tlast=" + strconv.FormatInt(tlast, 10)
+		" tconn=" + strconv.FormatInt(tconn, 10) + " tlast=" + strconv.FormatInt(tlast, 10) + " cut=" + cut
 	rp.Close()
 	close(stop)
 	ln.Close()
@@ -961,6 +1001,53 @@ func gwReflectState(rp *gorwp.RawPanel) (tj, sv, av string) {
 	return
 }
 
+// How many invocations and acknowledges a run of the script produces if nothing is lost: every event before the first
+// over-limit / truncated frame, once per handler bound to its id (at that point of the script) whose component it carries;
+// one acknowledge per panel ping.  Used by the stopping rule of gwRun only.
+func gwExpected(items []gwItem, bind string) (ninv, nacks int) {
+	bound := map[string]bool{}
+	if bind != "" && bind != "-" {
+		for _, t := range strings.Split(bind, ",") {
+			if len(t) >= 2 {
+				bound[t] = true
+			}
+		}
+	}
+	for _, it := range items {
+		switch it.kind {
+		case "over", "trunc":
+			return
+		case "bind":
+			bound[string(it.bk)+strconv.Itoa(it.n)] = true
+		case "msg":
+			for _, m := range it.msgs {
+				if m.FlowMessage == rwp.OutboundMessage_PING {
+					nacks++
+				}
+				for _, e := range m.Events {
+					id := strconv.Itoa(int(e.HWCID))
+					if bound["t"+id] {
+						ninv++
+					}
+					if bound["b"+id] && e.Binary != nil {
+						ninv++
+					}
+					if bound["p"+id] && e.Pulsed != nil {
+						ninv++
+					}
+					if bound["a"+id] && e.Absolute != nil {
+						ninv++
+					}
+					if bound["i"+id] && e.Speed != nil {
+						ninv++
+					}
+				}
+			}
+		}
+	}
+	return
+}
+
 // ---------------- generator ----------------
 
 func gwRec(kv ...string) nlRec {
@@ -974,6 +1061,13 @@ func gwRec(kv ...string) nlRec {
 	}
 	if strings.Contains(m["hist"], "xt") {
 		cost += 5000
+	}
+	for _, it := range strings.Split(m["hist"], ";") {
+		if len(it) > 1 && it[0] == 'w' {
+			if n, err := strconv.Atoi(it[1:]); err == nil {
+				cost += n
+			}
+		}
 	}
 	return nlRec{cmd: "gorwp.run", args: kv, cost: cost}
 }
@@ -1164,6 +1258,12 @@ func genC19(r *Rng, n int, tier string) {
 		add("mode=bin", "init=full", "bind=b1,p2", "fb=0", "seg=0", "hist=eb1.1.0;ep2.1;w300;xo"+i2(lim)+";eb1.0.0;ep2.-1;g")
 		add("mode=bin", "init=full", "bind=b1,p2", "fb=0", "seg=0", "hist=eb1.1.0;ep2.1;xo"+i2(lim)+";eb1.0.0;ep2.-1")
 	}
+	// a burst right in front of an over-limit header (no pause): the client may drop what is still in its incoming queue
+	// when the frame ends the connection, but no more than the queue holds (10): the rest of the burst must have been dispatched
+	add("mode=bin", "init=full", "bind=b1", "fb=0", "seg=0", "hist=B40.1;xo500000;eb1.0.0")
+	// (one handler per event here: with feedback and two handlers on one id the first handler's feedback can block for good on
+	// the dead connection between the two invocations of one event — the log then ends inside a group)
+	add("mode=bin", "init=full", "bind=b1,p2", "fb=1", "seg=0", "hist=eb1.1.0;w300;B25.1;ep2.1;xo4294967295;eb1.0.0")
 	add("mode=bin", "init=full", "bind=b1,p2", "fb=0", "seg=0", "hist=xo499999")
 	add("mode=bin", "init=full", "bind=b1,p2", "fb=0", "seg=0", "hist=xt40;eb1.1.0;ep2.1")
 	add("mode=bin", "init=full", "bind=b1,p2", "fb=0", "seg=0", "hist=eb1.1.0;w300;xt40;eb1.0.0;ep2.1")
@@ -1211,6 +1311,49 @@ func genC19(r *Rng, n int, tier string) {
 	for _, mode := range modes {
 		add("mode="+mode, "init=full", "bind=b1", "fb=0", "seg=0", "hist=Aeb1.1.0")
 		add("mode="+mode, "init=full", "bind=b1,p2", "fb=0", "seg=0", "hist=eb1.1.0;Aep2.1;eb1.0.0;Ai"+gwHexOf("M2")+".-.-;Ag;A")
+	}
+	// (12) QUIET PERIODS: 2.2 – 4 s of silence from the panel — longer than the reader's 2 s payload deadline and than two
+	// heartbeat periods of the client — at every point of a history: right after the answer to the initial request, after
+	// an event, after a ping / acknowledge exchange, after a handler's feedback, twice in a row, at the very end; with a
+	// panel that leaves the client's heartbeat pings unanswered during the silence (pa=0: the socket is really quiet) and
+	// one that acknowledges them (pa=1).  The connection must stay live: everything sent after the silence is dispatched
+	// exactly once and the client does not end the connection.
+	qms := func() string { return "w" + i2(r.Range(2200, 4000)) }
+	for _, mode := range modes {
+		for _, pa := range []string{"0", "1"} {
+			add("mode="+mode, "init=full", "bind=b1,p2", "fb=0", "pa="+pa, "seg=0", "hist="+qms()+";eb1.1.0;ep2.1;eb1.0.0")
+			add("mode="+mode, "init=full", "bind=b1,p2", "fb=0", "pa="+pa, "seg=0", "hist=eb1.1.0;"+qms()+";eb1.0.0;ep2.-1;g")
+			add("mode="+mode, "init=full", "bind=b1,p2", "fb=0", "pa="+pa, "seg=0", "hist=eb1.1.0;g;A;"+qms()+";ep2.1;g;eb1.0.0")
+			add("mode="+mode, "init=full", "bind=b1,t1", "fb=1", "pa="+pa, "seg=0", "hist=eb1.1.0;eb1.0.0;"+qms()+";B5.1;"+qms()+";eb1.1.0")
+		}
+		// at the very end of the history: nothing follows, the connection must still be there
+		add("mode="+mode, "init=full", "bind=b1", "fb=0", "pa=0", "seg=0", "hist=eb1.1.0;eb1.0.0;"+qms())
+	}
+	nq := 4
+	if thorough {
+		nq = 40
+	}
+	for i := 0; i < nq; i++ {
+		mode := modes[r.Intn(2)]
+		h := []string{}
+		m := r.Range(3, 12)
+		for j := 0; j < m; j++ {
+			if r.Chance(35) {
+				h = append(h, gwRandUpdate(r, 5000+i*100+j))
+			} else {
+				h = append(h, gwRandEvent(r, mode == "bin", []int{1, 2, 3, 4, 5, 6, 7}))
+			}
+		}
+		// one or two silences at random positions (0 = before everything, len = after everything)
+		for k := r.Range(1, 2); k > 0; k-- {
+			at := r.Intn(len(h) + 1)
+			h = append(h[:at], append([]string{qms()}, h[at:]...)...)
+		}
+		seg := segs[r.Intn(len(segs))]
+		if seg[0] == 'r' {
+			seg = "r" + i2(r.Intn(1000))
+		}
+		add("mode="+mode, "init=full", "bind="+allBind, "fb="+i2(r.Pick(0, 0, 1)), "pa="+i2(r.Pick(0, 0, 1)), "seg="+seg, "hist="+strings.Join(h, ";"))
 	}
 	gwRunIsolated(recs, 32)
 }
